@@ -18,6 +18,9 @@
 
 namespace sim {
 
+void watchdog_arm(int cpu_seconds); // traps.cpp
+void watchdog_disarm();
+
 struct Args {
     std::map<std::string, std::string> kv;
     std::vector<std::string> pos;
